@@ -8,7 +8,7 @@ pub struct P;
 pub const VERS: [Ver; 5] = [Ver::V09, Ver::V10, Ver::V11, Ver::V2, Ver::V3];
 pub const HOSTS: [&str; 5] = ["none", "one", "two-orig", "orig+added", "non-textual"];
 pub const CLS: [&str; 9] = ["none", "5", "0", "5-added", "dup-orig", "dup-orig+added", "-1", "abc", "xff"];
-pub const TES: [&str; 4] = ["none", "chunked", "gzip", "non-textual"];
+pub const TES: [&str; 5] = ["none", "chunked", "gzip", "non-textual", "Chunked"];
 const APIS: [&str; 3] = ["flow", "call-with-body", "call-without-body"];
 
 #[derive(PartialEq, Debug, Clone, Copy)]
@@ -34,7 +34,7 @@ fn model(ver: Ver, method: &str, host: &str, cl: &str, te: &str, despite: bool, 
     if matches!(cl, "-1" | "abc" | "xff") {
         return Exp::Reject("non-numeric-content-length");
     }
-    let framing = matches!(cl, "5" | "0" | "5-added") || te == "chunked";
+    let framing = matches!(cl, "5" | "0" | "5-added") || te == "chunked" || te == "Chunked";
     let takes_body = needs_body(method);
     let with_body = match api {
         "flow" => takes_body || despite,
@@ -94,6 +94,7 @@ pub fn build(ver: Ver, method: &'static str, host: &str, cl: &str, te: &str, des
     }
     match te {
         "chunked" => c.orig.push(("transfer-encoding".into(), b"chunked".to_vec())),
+        "Chunked" => c.orig.push(("Transfer-Encoding".into(), b"Chunked".to_vec())),
         "gzip" => c.orig.push(("transfer-encoding".into(), b"gzip".to_vec())),
         "non-textual" => c.orig.push(("transfer-encoding".into(), b"\xfe\xff".to_vec())),
         _ => {}
@@ -159,7 +160,7 @@ fn cell(idx: u64, rec: &mut Rec) {
     let method = METHODS[take(9)];
     let host = HOSTS[take(5)];
     let cl = CLS[take(9)];
-    let te = TES[take(4)];
+    let te = TES[take(5)];
     let despite = take(2) == 1;
     let api = APIS[take(3)];
     if despite && api != "flow" {
@@ -229,7 +230,7 @@ impl Property for P {
         "C17"
     }
     fn rule(&self) -> String {
-        "exhaustive product: 5 versions x 9 methods x 5 Host shapes x 9 Content-Length shapes (valid, zero, caller-added, duplicate orig/orig and orig/added, negative, non-numeric, non-UTF-8) x 4 Transfer-Encoding shapes x despite on/off x {Flow, Call::with_body, Call::without_body}. Each cell is written twice with a 4 KiB buffer and compared with the six-class model of the statement (reject: Err twice, never ready; accept: Ok with bytes, ready). class = api x model class.".into()
+        "exhaustive product: 5 versions x 9 methods x 5 Host shapes x 9 Content-Length shapes (valid, zero, caller-added, duplicate orig/orig and orig/added, negative, non-numeric, non-UTF-8) x 5 Transfer-Encoding shapes x despite on/off x {Flow, Call::with_body, Call::without_body}. Each cell is written twice with a 4 KiB buffer and compared with the six-class model of the statement (reject: Err twice, never ready; accept: Ok with bytes, ready). class = api x model class.".into()
     }
     fn assumptions(&self) -> Vec<String> {
         vec![
@@ -239,7 +240,7 @@ impl Property for P {
         ]
     }
     fn workloads(&self, _tier: Tier) -> Vec<Workload> {
-        vec![Workload::new("table", 5 * 9 * 5 * 9 * 4 * 2 * 3, true, "the full product (cells with despite on a Call API are skipped)")]
+        vec![Workload::new("table", 5 * 9 * 5 * 9 * 5 * 2 * 3, true, "the full product (cells with despite on a Call API are skipped)")]
     }
     fn run_case(&self, _wl: &str, idx: u64, _seed: u64, rec: &mut Rec) {
         cell(idx, rec)
